@@ -229,7 +229,9 @@ def writers(ctx):
         for c in ci.mro:
             names += [m for m in c.methods if m not in names]
         for m in names:
-            tr = ctx.trace(cname, m)
+            tr = ctx.trace_member(cname, m)
+            if tr is None:
+                continue
             for e in tr.stores():
                 if e.attr not in ("_input_cols", "_input_col_dim"):
                     continue
